@@ -82,6 +82,7 @@ pub fn config(a: &Args) -> Config {
         deep: a.num("deep", 0) as u32,
         quq: a.num("quq", 0) as u32,
         quq_tail: a.num("quq-tail", 1) as u32,
+        raw: a.num("raw", 0) as u32,
         quq_cs: a.num("quq-cs", 0) as u32,
     }
 }
@@ -254,6 +255,7 @@ fn msys_dispatch(a: &Args, sys: &str, replay: Option<(Vec<String>, String)>) -> 
         delh: a.flag("delh"),
         del: a.flag("del"),
         clear: a.flag("clear"),
+        qops: a.flag("qops"),
         o_ref: a.flag("o_ref"),
         o_handle: a.flag("o_handle"),
         o_neigh: a.flag("o_neigh"),
